@@ -67,7 +67,7 @@ PROPS = {
 
 VFY_TRUSTED = [GO, "github.com/segmentio/fasthash/fnv1a -- modelled (Base/Fnv.v) and differentially tested: every sum in every report is an observable of the vfy stream",
                "raft.InmemStore / the WAL under a contract guard (harness guardStore: contiguous appends, prefix/suffix deletes = the C05 spec the model uses); at-rest corruption and StoreLogs faults are injected by that wrapper"]
-VFY_ASSUME = ["StoreLogs and DeleteRange of one LogStore are atomic with respect to each other (raft calls them from one goroutine; log compaction's head truncation racing a StoreLogs can only make the next WrittenSum unclaimed or stale-but-true, see DESIGN.md 10 vfy)",
+VFY_ASSUME = ["the model is sequential: StoreLogs and DeleteRange of one LogStore are atomic with respect to each other; the one interleaving raft really produces (compaction = head truncation from the snapshot goroutine during StoreLogs) leaves the verifier state untouched since 8c5a9f9 and is exercised on the implementation by the #race case of the vfy stream on every run",
               "indexes are non-zero and below 2^64-1 (no uint64 wrap in idx+1 / max+1)",
               "the verifier reads a range atomically with respect to writers (property quantifier: ranges not modified while their verification runs); the store contents at that moment are an arbitrary parameter sv of the theorems",
               "the bootstrap exception (index 1 + LogConfiguration hashes to 0) is the explicit hypothesis no_bootstrap of the C17 range theorems"]
